@@ -176,6 +176,15 @@ func runCLI(c *C19Case) (*cliOut, error) {
 	return out, nil
 }
 
+// vValues returns the values of the 'v' lines, in order, without the line prefixes.
+func vValues(vLines []string) []string {
+	var f []string
+	for _, l := range vLines {
+		f = append(f, strings.Fields(l)[1:]...)
+	}
+	return f
+}
+
 func hasFlag(c *C19Case, f string) bool {
 	for _, x := range c.Flags {
 		if x == f {
@@ -293,33 +302,35 @@ func c19CheckDecision(c *C19Case, rec *Rec, scen string, out *cliOut, sLines, vL
 			rec.Viol(scen, "cli(wrong-verdict)", "Sat-for-unsat", "'s SATISFIABLE' printed for an unsatisfiable file")
 			return
 		}
-		if len(vLines) != 1 {
-			rec.Viol(scen, "cli(v-line)", "count", "expected exactly one 'v' line, got %q", vLines)
+		if len(vLines) == 0 {
+			rec.Viol(scen, "cli(v-line)", "count", "'s SATISFIABLE' without any 'v' line")
 			return
 		}
-		f := strings.Fields(vLines[0])[1:]
+		// the conventions allow the values to be spread over several 'v' lines, in any order, the last value being 0
+		f := vValues(vLines)
 		if len(f) == 0 || f[len(f)-1] != "0" {
-			rec.Viol(scen, "cli(v-line)", "format", "the 'v' line %q does not end with 0", vLines[0])
+			rec.Viol(scen, "cli(v-line)", "format", "the 'v' lines %q do not end with 0", vLines)
 			return
 		}
 		f = f[:len(f)-1]
 		if len(f) != c.N {
-			rec.Viol(scen, "cli(v-line)", "length", "the 'v' line has %d literals, the file declares %d variables", len(f), c.N)
+			rec.Viol(scen, "cli(v-line)", "length", "the 'v' lines hold %d literals, the file declares %d variables", len(f), c.N)
 			return
 		}
-		var a uint32
+		var a, seen uint32
 		for i, tok := range f {
 			v, err := strconv.Atoi(tok)
-			if err != nil || (v != i+1 && v != -(i+1)) {
-				rec.Viol(scen, "cli(v-line)", "format", "literal #%d of the 'v' line is %q", i+1, tok)
+			if err != nil || v == 0 || v > c.N || -v > c.N || seen>>uint(abs(v)-1)&1 == 1 {
+				rec.Viol(scen, "cli(v-line)", "format", "value #%d of the 'v' lines is %q (each declared variable must occur once)", i+1, tok)
 				return
 			}
+			seen |= 1 << uint(abs(v)-1)
 			if v > 0 {
-				a |= 1 << uint(i)
+				a |= 1 << uint(v-1)
 			}
 		}
 		if bad := p.FirstViolated(a); bad >= 0 {
-			rec.Viol(scen, "cli(bad-model)", "v-line", "the printed model %q falsifies clause %v of the file", vLines[0], c.CNF[bad])
+			rec.Viol(scen, "cli(bad-model)", "v-line", "the printed model %q falsifies clause %v of the file", vLines, c.CNF[bad])
 		}
 	case "s UNSATISFIABLE":
 		if sat {
@@ -422,29 +433,31 @@ func c19CheckOptim(c *C19Case, rec *Rec, scen string, out *cliOut, sLines, vLine
 		rec.Viol(scen, "cli(not-optimal)", "o-line", "last 'o' line says %d, the optimum of the file is %d", prev, opt)
 		return
 	}
-	if len(vLines) != 1 {
-		rec.Viol(scen, "cli(v-line)", "count", "expected exactly one 'v' line, got %q", vLines)
+	if len(vLines) == 0 {
+		rec.Viol(scen, "cli(v-line)", "count", "'s OPTIMUM FOUND' without any 'v' line")
 		return
 	}
-	f := strings.Fields(vLines[0])[1:]
+	f := vValues(vLines) // possibly spread over several 'v' lines, in any order
 	if len(f) != n {
-		rec.Viol(scen, "cli(v-line)", "length", "the 'v' line has %d literals, the file has %d variables", len(f), n)
+		rec.Viol(scen, "cli(v-line)", "length", "the 'v' lines hold %d literals, the file has %d variables", len(f), n)
 		return
 	}
-	var a uint32
+	var a, seen uint32
 	for i, tok := range f {
-		switch tok {
-		case fmt.Sprintf("x%d", i+1):
-			a |= 1 << uint(i)
-		case fmt.Sprintf("-x%d", i+1):
-		default:
-			rec.Viol(scen, "cli(v-line)", "format", "literal #%d of the 'v' line is %q", i+1, tok)
+		neg := strings.HasPrefix(tok, "-")
+		v, err := strconv.Atoi(strings.TrimPrefix(strings.TrimPrefix(tok, "-"), "x"))
+		if err != nil || !strings.HasPrefix(strings.TrimPrefix(tok, "-"), "x") || v < 1 || v > n || seen>>uint(v-1)&1 == 1 {
+			rec.Viol(scen, "cli(v-line)", "format", "value #%d of the 'v' lines is %q (each variable must occur once, as xN or -xN)", i+1, tok)
 			return
+		}
+		seen |= 1 << uint(v-1)
+		if !neg {
+			a |= 1 << uint(v-1)
 		}
 	}
 	cost, ok := costOf(a)
 	if !ok {
-		rec.Viol(scen, "cli(bad-model)", "v-line", "the printed model %q violates a (hard) constraint of the file", vLines[0])
+		rec.Viol(scen, "cli(bad-model)", "v-line", "the printed model %q violates a (hard) constraint of the file", vLines)
 		return
 	}
 	if cost != opt {
